@@ -124,6 +124,7 @@ static bool       g_threads   = false;
 static bool       g_yield_on_event = false;
 static Rng        g_sched_rng(1);
 static size_t     g_stack_hwm = 0;
+static uint64_t   g_alarm_last_steps = ~0ULL;
 static bool       g_sync_released = false; // a simulated lock / guard was released since the scheduler last looked
 
 static uint64_t    g_run_index = 0, g_run_seed = 0;
@@ -454,6 +455,9 @@ uint64_t digest_shared() {
 uint64_t steps_now() {
     return g_steps;
 }
+size_t stack_hwm() {
+    return g_stack_hwm;
+}
 void set_block_owner_task(void *p, int task) {
     if (p == nullptr) return;
     uintptr_t d = (uintptr_t)p - (uintptr_t)A;
@@ -745,6 +749,7 @@ void run_begin(const RunCfg &cfg) {
     g_live_lib = g_live_all = g_peak_live = g_allocs = g_frees = 0;
     g_memrec_add = g_memrec_remove = 0;
     g_steps = g_switches = 0;
+    g_alarm_last_steps = ~0ULL;
     g_hash = 0xcbf29ce484222325ULL;
     g_il_hash = g_obs_hash = 0;
     g_viol.clear();
@@ -1106,6 +1111,15 @@ static void puts_(char *&p, const char *s) {
 static void trap_handler(int signo, siginfo_t *si, void *uctx) {
     char  buf[1024];
     char *p = buf;
+    if (signo == SIGALRM) {
+        // wall-clock watchdog: slow is not stuck. While the step clock advances, termination is the step budget's
+        // business; only a run whose step clock stands still (a loop without any instrumented access) is a hang.
+        if (g_steps != g_alarm_last_steps) {
+            g_alarm_last_steps = g_steps;
+            alarm(20);
+            return;
+        }
+    }
     puts_(p, "TRAP run=");
     decu(p, g_run_index);
     puts_(p, " seed=");
